@@ -82,7 +82,9 @@ async fn run_case(ops: Vec<String>) -> String {
     }
     task.abort();
     *verif::FACTORY.lock().unwrap() = None;
-    out.join(";")
+    // what is configured at the end (after in-call changes too): the oracle compares it with what is registered
+    let mut conf: Vec<String> = cfg.pathset.get().iter().map(|p| { let p: &WatchedPath = p; key(p.as_ref(), format!("{p:?}").contains("recursive: true")) }).collect(); conf.sort();
+    format!("{}\tCFG={}|{}", out.join(";"), conf.join(","), if matches!(cfg.file_watcher.get(), Kind::Native) { "N" } else { "P" })
 }
 
 fn main() {
